@@ -233,7 +233,7 @@ func c14ExitCode(c *Check, a *Anchors) {
 		c.Errorf("exit-code-visible: exit-code cell not found in SSA")
 		return
 	}
-	pe := &PathEnum{Fn: fn, MaxRevisit: 1, Event: func(in ssa.Instruction) (string, string) {
+	pe := &PathEnum{Fn: fn, MaxRevisit: revisit(), Event: func(in ssa.Instruction) (string, string) {
 		if st, ok := in.(*ssa.Store); ok && st.Addr == cellAlloc {
 			if c, isConst := st.Val.(*ssa.Const); isConst && c.Value != nil && c.Value.ExactString() == "0" {
 				return "", "" // zero initialisation
